@@ -454,6 +454,10 @@ class Generator:
             elif s.startswith('//@struct') or s.startswith('//@enum'):
                 p = s.split()
                 self.emit_item(p[0][3:], p[1], p[2], p[3:])
+            elif s.startswith('//@lemma'):
+                # //@lemma <name> <props...>: a spec-level lemma over the contracts (template text, not extracted code) that carries a property
+                parts = s.split()
+                self.pending_lemma = (parts[1], parts[2:])
             elif s.startswith('//@use'):
                 # //@use <unit file> <Owner::fn> [...]: the contract of a function proved in its home
                 # unit, emitted here as signature + contract only (external_body)
@@ -475,6 +479,25 @@ class Generator:
                 raise SystemExit('unknown directive: ' + s)
             else:
                 self.out.emit(ln, None)
+                pl = getattr(self, 'pending_lemma', None)
+                if pl and re.search(r'\bproof fn\s+' + re.escape(pl[0]) + r'\b', ln):
+                    self.lemma_open = dict(qual=pl[0], emit_name=pl[0], known=None, props=pl[1], safety=pl[1], excluded=False, src=os.path.relpath(path, ROOT),
+                                           start_line=self.out.lineno(), clauses=[], mode='lemma', fnspec=None, src_lines=[i + 1, i + 1], depth=0, seen=False)
+                    self.pending_lemma = None
+                lo = getattr(self, 'lemma_open', None)
+                if lo:
+                    if not lo['seen']:
+                        if ln.strip() == '{':      # the body of a lemma opens with a brace on its own line
+                            lo['seen'] = True
+                            lo['depth'] = 1
+                    else:
+                        lo['depth'] += ln.count('{') - ln.count('}')
+                    if lo['seen'] and lo['depth'] <= 0:
+                        lo['end_line'] = self.out.lineno()
+                        lo['src_lines'][1] = i + 1
+                        lo.pop('depth'); lo.pop('seen')
+                        self.fns.append(lo)
+                        self.lemma_open = None
             i += 1
 
     # ---- items ---------------------------------------------------------
